@@ -153,7 +153,7 @@ CHECKS = {
         "level": "model_checking",
         "engine": "E1",
         "technique": "stateless model checking of the assembled operator and of the queue set alone under a controlled scheduler (deviation-bounded DFS), virtual clock",
-        "level_text": "The real ShellOperator.Start() (task queues and their worker loops, queue set, events handler, hook and bindings controllers, schedule manager, kube events manager) runs under the controlled scheduler with a virtual clock; hook processes, informers, HTTP server and cron's goroutine are behind seams. Two hooks with kubernetes and schedule bindings in `main` and `q2`, an environment thread producing 2 ticks and 2 changes per namespace, three variants (no stall, a q2 hook that never returns, a main hook that fails forever). After start-up (run on the default schedule; C06 explores it) ALL schedules with at most 2 (quick) / 3 (thorough) deviations from the deterministic default scheduler (delay bounding: keep the running thread, else lowest thread id; every other choice, pre-emptive or not, costs one) are executed. Oracle per execution: handler intervals of one queue never overlap, the task handed over is the queue's head, every context runs in the queue its binding names, per-binding event order, and the queue that is not stalled executes all its tasks. Part q (the queue set alone, delay bound 2 / 3): four started queues, the worker of one inside a handler that does not return, one of nine set operations (Remove of the stalled / an idle / an absent queue, NewNamedQueue, Iterate, DoWithLock, GetByName, Stop of the stalled queue) from another thread, a task added the events handler's way and a task whose handler looks its own queue up - both handled while the stalled queue is still stalled. Part h (one real TaskQueue, delay bound 1 / 2): after a first handler result that makes the worker wait (Fail back-off, Repeat, DelayBeforeNextTask of 50 ms / 2 s with Success, 100 ms with Keep) one of AddFirst / Remove(head) / Filter(drop head) / AddFirst+Remove is issued at every enumerated virtual instant strictly inside the delay (1 ms .. 3 s); the handler calls after the delay must be the reference list's tasks head first - a task put at the head runs next, a removed task never runs again.",
+        "level_text": "The real ShellOperator.Start() (task queues and their worker loops, queue set, events handler, hook and bindings controllers, schedule manager, kube events manager) runs under the controlled scheduler with a virtual clock; hook processes, informers, HTTP server and cron's goroutine are behind seams. Two hooks with kubernetes and schedule bindings in `main` and `q2`, an environment thread producing 2 ticks and 2 changes per namespace, three variants (no stall, a q2 hook that never returns, a main hook that fails forever). After start-up (run on the default schedule; C06 explores it) ALL schedules with at most 2 (quick) / 3 (thorough) deviations from the deterministic default scheduler (delay bounding: keep the running thread, else lowest thread id; every other choice, pre-emptive or not, costs one) are executed. Oracle per execution: handler intervals of one queue never overlap, the task handed over is the queue's head, every context runs in the queue its binding names, per-binding event order, and the queue that is not stalled executes all its tasks. Part q (the queue set alone, delay bound 2 / 3): four started queues, the worker of one inside a handler that does not return, one of nine set operations (Remove of the stalled / an idle / an absent queue, NewNamedQueue, Iterate, DoWithLock, GetByName, Stop of the stalled queue) from another thread, a task added the events handler's way and a task whose handler looks its own queue up - both handled while the stalled queue is still stalled. Part h (one real TaskQueue, delay bound 2 / 3): after a first handler result that makes the worker wait (Fail back-off, Repeat, DelayBeforeNextTask of 50 ms / 2 s with Success, 100 ms with Keep) one of AddFirst / AddBefore(head) / AddLast / Remove(head) / RemoveFirst / Filter(drop head) / AddFirst+Remove / AddFirst+CancelTaskDelay is issued at every enumerated virtual instant strictly inside the delay (1 ms .. 3 s); the handler calls after the delay must be the reference list's tasks head first - a task put at the head runs next, a removed task never runs again.",
         "level_note": "Trusted: scheduler (vrt), hub and process stand-in as environment models, fake cluster. Scheduling points: lock/channel/select/timer operations (locks of every file of the operator's packages) and listed racy fields; sequential consistency. Part oprace is a free-running race-detector pass over the same scenario with real goroutines and real client-go informers: it cross-checks that no unsynchronised access is missing from the list (an unlisted one is reported as a cap, never as a violation) and adds nothing to the counters.",
         "rule": "DFS over thread choices at scheduling points with at most N pre-emptions per stall variant; non-trivial = execution with >= 1 pre-emption; distinct = distinct sequence of (hook, queue, contexts) executions",
         "parts": [
